@@ -93,7 +93,13 @@ func main() {
 	r.Rule = "crash states = for every history: every prefix of the write log; the next write torn at every byte (quick: header writes every byte below 128 then every 8th); the next appending write " +
 		"zero-filled from every byte (quick: every byte below 128, then every 4th); every non-suffix subset of the last 3 writes lost. distinct = (history, kind of state, per-file shape " +
 		"[header, complete parts, kind of tail, duration field], status of every playback request)"
-	hs := histories(r.Thorough())
+	// a replay looks its state up in the largest enumeration (the thorough one)
+	full := r.Thorough() || *flagReplay != ""
+	histTier := r.Tier
+	if full {
+		histTier = "thorough"
+	}
+	hs := histories(full)
 
 	base, err := reclib.TempDir("c27")
 	if err != nil {
@@ -285,7 +291,7 @@ func main() {
 		// ---- syscall boundaries
 		var fine []Op
 		if !*flagNoTrace {
-			calls, terr := traceSyscalls(hi, r.Tier)
+			calls, terr := traceSyscalls(hi, histTier)
 			if terr == nil {
 				var n int
 				fine, n, terr = splitBySyscalls(ops, calls)
@@ -316,7 +322,7 @@ func main() {
 			r.Sample(map[string]any{"history": h.Name, "write_log": l})
 		}
 		corpus.Hists = append(corpus.Hists, HistCorpus{History: rec.History, Ops: fine, Final: final, Segs: segs})
-		corpus.States = append(corpus.States, enumerate(len(corpus.Hists)-1, fine, r.Thorough())...)
+		corpus.States = append(corpus.States, enumerate(len(corpus.Hists)-1, fine, full)...)
 	}
 
 	if *flagReplay != "" {
@@ -381,7 +387,7 @@ func main() {
 	}
 	var handed int
 	handed, err = reclib.RunPool(reclib.PoolOpts{Workers: *flagWorkers, Arg: base, CaseTimeout: 60 * time.Second,
-		ExtraArgs: []string{"-tier", r.Tier}, Deadline: deadline,
+		ExtraArgs: []string{"-tier", histTier}, Deadline: deadline,
 		Order: func(k int) int { return int(int64(k) * int64(stride) % int64(total)) }}, nStates, func(cr reclib.CaseResult) {
 		r.Eval(1)
 		st := corpus.States[cr.Index]
